@@ -1,6 +1,7 @@
 package mfs
 
 import (
+	"bytes"
 	"fmt"
 	"io"
 	"os"
@@ -192,9 +193,23 @@ func (s *Subject) Exec(step int, op Op) (res Res) {
 		if chunks == nil { // unspecified: one chunk; an empty non-nil list means "open and close without a Write"
 			chunks = []int{len(op.Data)}
 		}
-		for _, c := range chunks {
+		for i, c := range chunks {
 			buf := append([]byte{}, op.Data[off:off+c]...)
-			n, err := w.Write(buf)
+			// how the chunk reaches the writer is a function of the operation (replayable): mostly
+			// Write, now and then io.Copy from a plain reader (a writer that has ReadFrom is fed
+			// through it) or io.WriteString – all three must append in call order
+			var n int
+			var err error
+			switch (len(op.Data) + 7*i + len(op.P1)) % 6 {
+			case 4:
+				var n64 int64
+				n64, err = io.Copy(w, struct{ io.Reader }{bytes.NewReader(buf)})
+				n = int(n64)
+			case 5:
+				n, err = io.WriteString(w, string(buf))
+			default:
+				n, err = w.Write(buf)
+			}
 			if s.Scribble {
 				scribble(buf)
 			}
